@@ -89,9 +89,16 @@ pub struct Prog {
     pub key: String,
     pub src: String,
     pub specs: Vec<OSpec>,
+    /// which entry points the module has: any of V, F, C (empty = none at all)
+    pub mix: &'static str,
 }
 
 pub fn build(specs: Vec<OSpec>, key: String) -> Prog {
+    build_mix(specs, key, "VF")
+}
+
+/// The constants struct is owed whenever the shader declares overrides, whatever stages its entry points belong to.
+pub fn build_mix(specs: Vec<OSpec>, key: String, mix: &'static str) -> Prog {
     let mut src = String::from("override base_ov: f32 = 2.0;\n");
     for s in &specs {
         src.push_str(&s.decl("base_ov"));
@@ -100,8 +107,19 @@ pub fn build(specs: Vec<OSpec>, key: String) -> Prog {
     // no arithmetic between the values: naga folds constant expressions after override resolution and
     // rejects overflowing ones, which would be the test shader's fault
     let chain = uses.iter().fold("base_ov".to_string(), |acc, u| format!("max({acc}, {u})"));
-    src.push_str(&format!("@vertex fn vs_main() -> @builtin(position) vec4<f32> {{\n    return vec4<f32>({chain});\n}}\n@fragment fn fs_main() -> @location(0) vec4<f32> {{\n    return vec4<f32>({chain});\n}}\n"));
-    Prog { key, src, specs }
+    if mix.contains('V') {
+        src.push_str(&format!("@vertex fn vs_main() -> @builtin(position) vec4<f32> {{\n    return vec4<f32>({chain});\n}}\n"));
+    }
+    if mix.contains('F') {
+        src.push_str(&format!("@fragment fn fs_main() -> @location(0) vec4<f32> {{\n    return vec4<f32>({chain});\n}}\n"));
+    }
+    if mix.contains('C') {
+        src.push_str(&format!("var<workgroup> sink: f32;\n@compute @workgroup_size(1) fn cs_main() {{\n    sink = {chain};\n}}\n"));
+    }
+    if mix.is_empty() {
+        src.push_str(&format!("fn helper_only() -> f32 {{\n    return {chain};\n}}\n"));
+    }
+    Prog { key, src, specs, mix }
 }
 
 pub fn singles() -> Vec<OSpec> {
@@ -125,6 +143,22 @@ pub fn space(thorough: bool) -> Vec<Prog> {
         let mut a = a.clone();
         a.name = names[i % names.len()].into();
         out.push(build(vec![a], format!("single|{i}")));
+    }
+    // the stage mix of the module's entry points: compute only, none at all, one render stage, compute + fragment
+    for (i, a) in s.iter().enumerate() {
+        for (mi, mix) in ["C", "", "V", "F", "CF", "VFC"].into_iter().enumerate() {
+            if !thorough && (i + mi) % 3 != 0 {
+                continue;
+            }
+            let mut a = a.clone();
+            a.name = names[(i + mi) % names.len()].into();
+            let mut b = s[(i * 5 + 7) % s.len()].clone();
+            b.name = "second_ov".into();
+            if b.id.is_some() && b.id == a.id {
+                b.id = None;
+            }
+            out.push(build_mix(vec![a, b], format!("mix={mix}|{i}"), mix));
+        }
     }
     // pairs: all ordered pairs in thorough, a diagonal band in quick
     for (i, a) in s.iter().enumerate() {
@@ -227,10 +261,15 @@ pub fn probe_code(p: &Prog, fields: &[String]) -> String {
             };
             fields_s.push(format!("{}: {e}", fname(si + 1, &spec.name)));
         }
-        s.push_str(&format!(
-            "    {{\n        let ov = OverrideConstants {{ {} }};\n        let direct = ov.constants();\n        let ve = vs_main_entry(&ov);\n        let fe = fs_main_entry([None], &ov);\n        let vst = vertex_state(&module, &ve);\n        let fst = fragment_state(&module, &fe);\n        out.push(format!(\"{{{{\\\"op\\\":\\\"overrides\\\",\\\"k\\\":{k},\\\"direct\\\":{{}},\\\"vertex_entry\\\":{{}},\\\"fragment_entry\\\":{{}},\\\"vertex_state\\\":{{}},\\\"fragment_state\\\":{{}}}}}}\", dump(&direct), dump(&ve.constants), dump(&fe.constants), dump(vst.compilation_options.constants), dump(fst.compilation_options.constants)));\n    }}\n",
-            fields_s.join(", ")
-        ));
+        let mut body = format!("        let ov = OverrideConstants {{ {} }};\n        let direct = ov.constants();\n        let mut rec = format!(\"{{{{\\\"op\\\":\\\"overrides\\\",\\\"k\\\":{k},\\\"direct\\\":{{}}\", dump(&direct));\n", fields_s.join(", "));
+        if p.mix.contains('V') {
+            body.push_str("        let ve = vs_main_entry(&ov);\n        let vst = vertex_state(&module, &ve);\n        rec.push_str(&format!(\",\\\"vertex_entry\\\":{},\\\"vertex_state\\\":{}\", dump(&ve.constants), dump(vst.compilation_options.constants)));\n");
+        }
+        if p.mix.contains('F') {
+            body.push_str("        let fe = fs_main_entry([None], &ov);\n        let fst = fragment_state(&module, &fe);\n        rec.push_str(&format!(\",\\\"fragment_entry\\\":{},\\\"fragment_state\\\":{}\", dump(&fe.constants), dump(fst.compilation_options.constants)));\n");
+        }
+        body.push_str("        rec.push('}');\n        out.push(rec);\n");
+        s.push_str(&format!("    {{\n{body}    }}\n"));
     }
     s
 }
@@ -322,6 +361,13 @@ pub fn run(tier: &str) -> i32 {
                 rep.violation(case.clone(), format!("constants() = {direct:?}, expected {want:?}"), detail(format!("{direct:?}")));
             }
             for route in ["vertex_entry", "fragment_entry", "vertex_state", "fragment_state"] {
+                let want_route = p.mix.contains(if route.starts_with('v') { 'V' } else { 'F' });
+                if rec.get(route).is_none() {
+                    if want_route {
+                        rep.violation(case.clone(), format!("no record for {route}"), detail(String::new()));
+                    }
+                    continue;
+                }
                 let m = parse(&rec[route]);
                 if !same(&m, &direct) {
                     rep.violation(case.clone(), format!("{route} carries {m:?}, constants() gave {direct:?}"), detail(format!("{m:?}")));
